@@ -194,16 +194,18 @@ template <class Q, class Arg> struct Runner {
             std::string cls = clsname(*o);
             bool fi_ok = true;
             const int w = Fam<V>::width;
+            int weff = w;
             for (int bl = 0; bl < 2 && fi_ok; ++bl) {
                 V basev = bl ? Fam<V>::ones() : V();
                 std::vector<long> pos(w, -1);
+                std::vector<char> rejected(w, 0);      // single-bit values the setter refuses (field narrower than its parameter type)
                 std::vector<V> pv = probes;
                 for (int i = 0; i < w; ++i) pv.insert(pv.begin() + i, Fam<V>::bit(i));     // first w probes: single bits in order
                 for (size_t pi = 0; pi < pv.size() && fi_ok; ++pi) {
                     const V& v = pv[pi];
                     std::unique_ptr<PDU> a(prior(pr)), b(prior(pr));
                     Q& qa = static_cast<Q&>(*a); Q& qb = static_cast<Q&>(*b);
-                    try { (qa.*set)(basev); (qb.*set)(v); } catch (std::exception& e_) { if (!mc::tins_exc(e_)) throw; continue; }
+                    try { (qa.*set)(basev); (qb.*set)(v); } catch (std::exception& e_) { if (!mc::tins_exc(e_)) throw; if (bl == 0 && (int)pi < w) rejected[pi] = 1; continue; }
                     auto sa = snapshot(*a), sb = snapshot(*b);
                     for (auto& kv : sa) {
                         if (kv.first == k || aliased(kv.first, k) || always_derived_key(kv.first) || list_key(kv.first)) continue;
@@ -231,19 +233,21 @@ template <class Q, class Arg> struct Runner {
                     }
                 }
                 if (bl == 0 && fi_ok && !derived_field && !std::is_enum<V>::value) {
-                    int onwire = 0;
-                    for (int i = 0; i < w; ++i) if (pos[i] >= 0) ++onwire;
+                    int onwire = 0, accepted = 0;
+                    for (int i = 0; i < w; ++i) { if (!rejected[i]) ++accepted; if (pos[i] >= 0) ++onwire; }
+                    weff = accepted;
                     if (onwire == 0) { if (pr == 0) R.count("fields_not_on_wire_for_default_message_type"); fi_ok = false; }
-                    else if (onwire != w) {
-                        int miss = 0; while (pos[miss] >= 0) ++miss;
+                    else if (onwire != accepted) {
+                        int miss = 0; while (miss < w && (pos[miss] >= 0 || rejected[miss])) ++miss;
                         R.violation("field:value-bit-not-serialized:" + k, "value bit " + std::to_string(miss) + " of " + std::to_string(w) + " never reaches the wire although other bits do", ctx);
                         fi_ok = false;
                     }
                 }
-                if (bl == 0 && fi_ok && w > 1 && pos[0] >= 0 && !std::is_enum<V>::value) {
+                if (bl == 0 && fi_ok && weff > 1 && pos[0] >= 0 && !std::is_enum<V>::value) {
                     bool be = true, le = true;
                     auto le_index = [](long g) { return (g / 8) * 8 + (7 - g % 8); };     // little-endian bit numbering of an MSB-first index
                     for (int i = 0; i < w; ++i) {
+                        if (rejected[i]) continue;
                         if (pos[i] != pos[0] - i) be = false;
                         if (le_index(pos[i]) != le_index(pos[0]) + i) le = false;
                     }
@@ -252,8 +256,8 @@ template <class Q, class Arg> struct Runner {
                 }
             }
             if (pr == 0 && fi_ok) {
-                if (!fi.bits.empty() && (int)fi.bits.size() != w && !std::is_enum<V>::value)
-                    R.violation("field:wire-width:" + k, "field of declared width " + std::to_string(w) + " occupies " + std::to_string(fi.bits.size()) + " wire bits", ctx);
+                if (!fi.bits.empty() && (int)fi.bits.size() != weff && !std::is_enum<V>::value)
+                    R.violation("field:wire-width:" + k, "field of accepted width " + std::to_string(weff) + " occupies " + std::to_string(fi.bits.size()) + " wire bits", ctx);
                 g_fields.push_back(fi);
             }
         }
